@@ -286,24 +286,24 @@ class PiecewiseConstantBirthDeath(Distribution):
 
         times = torch.broadcast_to(times, self.mu.shape[:-1] + times.shape[-1:])
 
-        # rho.shape==[2,1] and lambda_.shape==[2,5] : add zeros
-        if self.rho.shape[:-1] == self.lambda_.shape[:-1] and self.rho.shape[-1] < m:
+        # rho.shape==[...,1] and lambda_.shape==[...,5] : a single sampling
+        # probability applies at present only, add zeros for the other epochs
+        rho = self.rho
+        if rho.shape[-1] < m:
             rho = torch.cat(
                 (
                     torch.zeros(
-                        self.lambda_.shape[:-1] + (m - 1,),
+                        rho.shape[:-1] + (m - rho.shape[-1],),
                         dtype=self.lambda_.dtype,
                         device=self.lambda_.device,
                     ),
-                    self.rho,
+                    rho,
                 ),
                 -1,
             )
-        # default fixed rho=[0.] and lambda_.shape==[2,5]
-        elif self.rho.shape != self.lambda_.shape:
-            rho = torch.broadcast_to(self.rho, self.lambda_.shape)
-        else:
-            rho = self.rho
+        # rho is fixed and lambda_ has batch dimensions (or vice versa)
+        if rho.shape != self.lambda_.shape:
+            rho = torch.broadcast_to(rho, self.lambda_.shape)
 
         p, A, B = self.log_p(times[..., 1:], times[..., :-1], rho)
 
